@@ -263,6 +263,8 @@ class TreeGen:
                 out.append("%% if %s:\n%s%% endif\n" % (self.expr(), "".join(self.leaves())))
             elif r < 0.62 and depth < 3:
                 f = self.uniq("d") if self.rng.random() < 0.92 else self.rng.choice(POOL)
+                if f in self.defs:          # two defs of one name: the later replaces the earlier in mako's dicts (not modelled)
+                    f = self.uniq("d")
                 args = self.rng.sample(POOL, self.rng.randint(0, 2))
                 sig = ", ".join(a if self.rng.random() < 0.7 else "%s=%s" % (a, self.name()) for a in args)
                 flt = ' filter="%s"' % self.rng.choice(POOL + ["h"]) if self.rng.random() < 0.1 else ""
